@@ -88,7 +88,12 @@ namespace glm
 				h = static_cast<T>(240) + T(60) * (rgbColor.r - rgbColor.g) / Delta;
 
 			if(h < T(0))
+			{
+				// a tiny negative hue rounds up to exactly 360 when 360 is added: that is hue 0
 				hsv.x = h + T(360);
+				if(hsv.x >= T(360))
+					hsv.x = T(0);
+			}
 			else
 				hsv.x = h;
 		}
